@@ -22,3 +22,4 @@ pub mod props_c14;
 pub mod props_c15;
 pub mod props_c17;
 pub mod props_c18;
+pub mod props_c16;
